@@ -227,6 +227,9 @@ def oracle_c20(series, nii, order):
         times = {k: dcm_time_to_sec(f['meta']['AcquisitionTime']) for k, f in by_pos.items() if 'AcquisitionTime' in f['meta']}
         if len(times) != S:
             fails.append('slice times recorded although not every slice has an acquisition time')
+        elif set(times) != set(range(S)):
+            fails.append('the source slices of the first volume fall on positions %s of the slice axis recorded in the header, not on 0..%d'
+                         % (sorted(times), S - 1))
         else:
             t0 = min(times.values())
             for k in range(S):
@@ -744,20 +747,30 @@ def history_correspondence(rep, r, tier):
         st0, _ = G.new_stack(series)
         added = model_tuples(st)
         ops, outs = [], []
+        raised = None
         for _ in range(r.randint(1, 8)):
             k = r.choice(['shape', 'data', 'affine', 'nifti', 'nifti'])
-            if k == 'shape':
-                quiet(st.get_shape); ops.append('shape')
-            elif k == 'data':
-                quiet(st.get_data); ops.append('data')
-            elif k == 'affine':
-                quiet(st.get_affine); ops.append('affine')
-            else:
-                o = r.choice([''] + all_orders())
-                fl = flips_slice(st0, o)
-                quiet(st.to_nifti, o, r.random() < 0.5)
-                ops.append('nifti_flip' if fl else 'nifti')
+            try:
+                if k == 'shape':
+                    ops.append('shape'); quiet(st.get_shape)
+                elif k == 'data':
+                    ops.append('data'); quiet(st.get_data)
+                elif k == 'affine':
+                    ops.append('affine'); quiet(st.get_affine)
+                else:
+                    o = r.choice([''] + all_orders())
+                    fl = flips_slice(st0, o)
+                    ops.append('nifti_flip' if fl else 'nifti')
+                    quiet(st.to_nifti, o, r.random() < 0.5)
+            except Exception as e:
+                raised = e
+                break
             outs.append(([t[3] for t in model_tuples(st)], bool(st._shape_dirty)))
+        if raised is not None:
+            # a complete regular series: no call of any history may fail
+            rep.failure('call %d (%s) of the history %r on a complete series raised %r' % (len(ops), ops[-1], ops, raised),
+                        {'tag': 'stack:history-raise', 'suite': 'stack', 'series': series, 'add_order': perm, 'ops': ops})
+            continue
         S = series['S']
         reqs.append({'op': 'stack_run', 'files': added, 'S': S, 'vols': nfiles // S, 'ops': ops})
         meta.append((series, perm, ops, outs))
@@ -886,6 +899,12 @@ def hashseed_round(rep, tier):
             raise core.Infra('hash-seed probe failed: ' + p.stderr[-800:])
         outs[hs] = json.loads(p.stdout.strip().splitlines()[-1])
     ref = outs[seeds[0]]
+    for hs in seeds:
+        for i, a in enumerate(outs[hs]):
+            if a.startswith('RAISED'):
+                rep.failure('series %d of the hash-seed probe (complete series, some keys missing in every other file) under PYTHONHASHSEED=%s: conversion %s' % (i, hs, a),
+                            {'tag': 'history:hashseed-raise', 'suite': 'hashseed', 'probe_index': i, 'seeds': [hs]})
+                return
     for hs in seeds[1:]:
         for i, (a, b) in enumerate(zip(ref, outs[hs])):
             rep.evaluations += 1
@@ -941,8 +960,9 @@ def extend_c07(rep, tier, r):
     from dcmstack.dcmmeta import NiftiWrapper
     n = 15 if tier == 'quick' else 300
     for ci in range(n):
-        series = G.gen_series(r, tier)
+        series = G.gen_series(r, tier, S=1, T=1, V=1) if ci % 5 == 4 else G.gen_series(r, tier)
         st, _ = G.new_stack(series)
+        held = []
         for order in [''] + r.sample(all_orders(), 3):
             rep.evaluations += 1
             rep.count('stack_convert_valid')
@@ -954,3 +974,13 @@ def extend_c07(rep, tier, r):
                 continue
             for f in img_matches(w, full_affine=True)[:1]:
                 rep.failure('converted image: ' + f, {'tag': 'stack:c07', 'suite': 'stack', 'series': series, 'order': order})
+            held.append((order, w))
+        # an image handed out earlier still carries an extension that matches it after the stack
+        # has been converted again
+        for order, w in held:
+            rep.evaluations += 1
+            rep.count('stack_convert_valid_held')
+            for f in img_matches(w, full_affine=True)[:1]:
+                rep.failure('image converted with voxel order %r, after later conversions of the same stack: %s' % (order, f),
+                            {'tag': 'stack:c07', 'suite': 'stack', 'series': series, 'order': order,
+                             'history': [o for o, _ in held]})
